@@ -398,3 +398,10 @@ for _fn in ("cJSONUtils_GeneratePatches", "cJSONUtils_GeneratePatchesCaseSensiti
     U(_fn, "utils", "harness/u_wrappers.c", enforce=_fn, shape="U", props=["C20"], covers=3, replace=["create_patches", "cJSON_CreateArray"],
       defs=["-DVF_UTILS_WRAPPERS", "-DUW_FN=%s" % _fn, "-DUW_KIND=3", "-DUW_H=h_%s" % _fn],
       note="frame only (C20): the entry point writes nothing but through cJSON_CreateArray / create_patches; the forwarding clause is tagged C17, which is not claimed")
+# merge patch two levels down (the recursion's own arguments): enumerated nested scenarios
+for _sc in (0, 1, 2):
+    U("u_mergepatch_n_%d" % _sc, "both", "harness/u_mergepatch_n.c", no_contract=True, shape="B", bound="ONE nested target/patch shape (scenario %d, see harness), member values symbolic" % _sc,
+      funcs=["merge_patch", "cJSONUtils_MergePatchCaseSensitive"], props=["C18"], covers=1, unwind=8,
+      unwindset=_AP_UW + ["merge_patch:4", "merge_patch.0:4", "healthy.0:6", "count.0:7", "case_insensitive_strcmp.0:5"], timeout=(600, 1800),
+      defs=["-DMN_SCEN=%d" % _sc, "-Dh_u_mergepatch_n=h_u_mergepatch_n_%d" % _sc],
+      note="nested objects recurse with the caller's case mode: exact key replaced / deleted / added two levels down, case twin untouched; ledger")
